@@ -267,7 +267,10 @@ LIMITS = r'''
   (b) a C01 program whose dumps grew to a 6 MB Coq literal made the evaluation time out, which was reported as a broken
   obligation - programs beyond 2500 dumped (variable, term) entries are now discarded and counted.  A first version of
   the large-size `ffft` check built dense 2^15 x 2^15 permutation matrices and never finished; it now simulates the
-  circuit decomposed into two-qubit gates.
+  circuit decomposed into two-qubit gates.  The last full thorough pass showed one more
+  error of this kind: the `always_insert` reconstructions added to C11 multiplied all n(n-1)/2 rotations exactly also for
+  8 x 8 matrices in the thorough tier and ran into the evaluation time limit (which would have been reported as a broken
+  obligation); they are now limited to 6 x 6.
 
 ---------------------------------------------------------------------------------------------
 
